@@ -20,10 +20,12 @@ Hang(c) == MustClose(c) /\ ~Closed(Obs(c))
 MissingError(c, kind) == Finals(c) # {} /\ (\A f \in Finals(c) : Count(f.errs, kind) > 0) /\ Count(Obs(c).errs, kind) = 0
 SpuriousError(c, kind) == Finals(c) # {} /\ (\A f \in Finals(c) : Count(f.errs, kind) = 0) /\ Count(Obs(c).errs, kind) > 0
 DuplicateTerminal(c) == \E kind \in TerminalKinds : Count(Obs(c).errs, kind) > 1
-NoCancelSent(c) == Finals(c) # {} /\ (\A f \in Finals(c) : <<"B", "cancel">> \in ToSet(f.wire)) /\ <<"B", "cancel">> \notin ToSet(Obs(c).wire)
-\* the cancel is what the responder must be left with: a "new" for the same request put on the wire after the last cancel overrides it
 LastKind(w) == LET S == { i \in 1..Len(w) : w[i][1] = "B" /\ w[i][2] \in {"new", "cancel"} } IN
                IF S = {} THEN "none" ELSE w[CHOOSE m \in S : \A y \in S : y <= m][2]
+\* (a cancel that a later request for the same id follows -- pause, then resume -- may be replaced by it in the outgoing message:
+\*  a cancel is demanded on the wire only where it is the last word)
+NoCancelSent(c) == Finals(c) # {} /\ (\A f \in Finals(c) : LastKind(f.wire) = "cancel") /\ <<"B", "cancel">> \notin ToSet(Obs(c).wire)
+\* the cancel is what the responder must be left with: a "new" for the same request put on the wire after the last cancel overrides it
 CancelOverridden(c) == Finals(c) # {} /\ (\A f \in Finals(c) : LastKind(f.wire) = "cancel") /\ LastKind(Obs(c).wire) = "new"
 C04Problems(c) == (IF Hang(c) THEN {"hang"} ELSE {})
    \cup (IF CancelOverridden(c) THEN {"cancel-overridden-by-later-request"} ELSE {})
